@@ -1,12 +1,14 @@
 // Part 4 (this file): literal constants of the curve packages -> Gen/CurveConsts.lean.
 //
 // Re-reads, on every run, from the CURRENT Go text
-//   (1) `init()` of ecc/<curve>/<curve>.go : curve coefficients, twist, generators, thirdRootOne, lambdaGLV, seed,
-//       LoopCounter tables (literal, or the literal scalar handed to ecc.NafDecomposition), endo.u / endo.v;
-//   (2) multiexp.go / multiexp_affine.go / multiexp_jacobian.go / g1.go / g2.go : implementedCs, the case labels of
-//       getChunkProcessorG1/G2 with batch sizes and bucket-array lengths, the NbTasks bound, the digit width of
-//       partitionScalars, the window search of BatchScalarMultiplication, the text of lastC / computeNbChunks;
-//   (3) initCurveParams() of the twisted-Edwards packages (A, D, Cofactor, Order, Base, bandersnatch endo / lambda).
+//
+//	(1) `init()` of ecc/<curve>/<curve>.go : curve coefficients, twist, generators, thirdRootOne, lambdaGLV, seed,
+//	    LoopCounter tables (literal, or the literal scalar handed to ecc.NafDecomposition), endo.u / endo.v;
+//	(2) multiexp.go / multiexp_affine.go / multiexp_jacobian.go / g1.go / g2.go : implementedCs, the case labels of
+//	    getChunkProcessorG1/G2 with batch sizes and bucket-array lengths, the NbTasks bound, the digit width of
+//	    partitionScalars, the window search of BatchScalarMultiplication, the text of lastC / computeNbChunks;
+//	(3) initCurveParams() of the twisted-Edwards packages (A, D, Cofactor, Order, Base, bandersnatch endo / lambda).
+//
 // The interpreter of init() is deliberately strict: a statement it does not understand, a missing identifier or an
 // unparsable literal is a non-zero exit naming the file, the line and the identifier. Values are emitted exactly as
 // written (signed integers, regular form); nothing is reduced or recomputed here, the relations are Lean theorems
